@@ -14,12 +14,14 @@ func (s *Sim) runOracles(op Op, evs []SIEvent, preds []PredCall) {
 	}
 	s.shim.mu.Lock()
 	defer s.shim.mu.Unlock()
+	s.cache = nil
 	s.oracleC03(op)
 	s.oracleC01(op, evs, preds)
 	s.oracleC09(op, evs)
 	s.oracleC10(op, evs)
 	s.oracleC11(op, evs)
 	s.oracleMore(op, evs, preds)
+	s.updateAdmitted(evs)
 }
 
 func countNew(evs []SIEvent) int {
